@@ -1,0 +1,38 @@
+use super::Archetype;
+use crate::{
+    registry::Registry,
+    verif::ArchetypeDump,
+};
+use alloc::vec::Vec;
+
+impl<R> Archetype<R>
+where
+    R: Registry,
+{
+    pub(crate) fn verif_dump(&self) -> ArchetypeDump {
+        // SAFETY: the identifier buffer is owned by this archetype and outlives the borrows here.
+        let id_bytes = unsafe { self.identifier.as_slice() };
+        let mut entity_ids = Vec::with_capacity(self.length);
+        for row in 0..self.length {
+            // SAFETY: the entity identifier column holds `length` initialised rows.
+            let identifier = unsafe { *self.entity_identifiers.0.add(row) };
+            entity_ids.push(identifier.verif_parts());
+        }
+        ArchetypeDump {
+            id_bytes: id_bytes.to_vec(),
+            id_addr: id_bytes.as_ptr() as usize,
+            id_cap: self.identifier.verif_capacity(),
+            length: self.length,
+            entity_ids,
+            entity_col: (
+                self.entity_identifiers.0 as usize,
+                self.entity_identifiers.1,
+            ),
+            columns: self
+                .components
+                .iter()
+                .map(|(pointer, capacity)| (*pointer as usize, *capacity))
+                .collect(),
+        }
+    }
+}
